@@ -15,6 +15,8 @@ Theorem C11_code_conforms :
   && skel_eqb skel_Task_writeAuditLogs exp_Task_writeAuditLogs
   && skel_eqb skel_Task_Execute exp_Task_Execute
   && skel_eqb skel_FinalizePaths exp_FinalizePaths
+  && skel_eqb skel_Process_Run exp_Process_Run                     (* a resumed run pairs items by position, as the reference *)
+  && skel_eqb skel_Process_createTasks exp_Process_createTasks     (* evaluator does: outputs leave in the order of the input sets *)
   && call_before "t.writeAuditLogs" "t.finalizePaths" exp_Task_Execute = true.
 Proof. vm_compute. reflexivity. Qed.
 
@@ -67,7 +69,9 @@ Proof. exact (conj JsonBytes.ascii_rec_ex JsonProofs.decode_render_example). Qed
    resolved to every implementation) is one the models were compared with -- a helper that is new to the cone, or a new call
    of an old one, changes a list (the lists are regenerated from /repo on every run; ExpectedCones.v holds the accepted ones) *)
 Theorem C11_cone_conforms :
-  strs_eqb cone_NewFileIP exp_cone_NewFileIP
+  strs_eqb cone_Process_Run exp_cone_Process_Run
+  && strs_eqb cone_Process_createTasks exp_cone_Process_createTasks
+  &&   strs_eqb cone_NewFileIP exp_cone_NewFileIP
   && strs_eqb cone_FileIP_AuditInfo exp_cone_FileIP_AuditInfo
   && strs_eqb cone_UnmarshalAuditInfoJSONFile exp_cone_UnmarshalAuditInfoJSONFile
   && strs_eqb cone_FileIP_WriteAuditLogToFile exp_cone_FileIP_WriteAuditLogToFile
